@@ -57,6 +57,19 @@ def run_case(case):
         viol.append({"kind": "raw-column-lost", "what": f"raw feature column 'f' is not in the output (columns {list(out.columns)})"})
     elif not all(eq_val(a, b) for a, b in zip(out["f"].tolist(), X["f"].tolist())):
         viol.append({"kind": "raw-column-changed", "what": "raw feature column 'f' is modified by transform"})
+    # a frame never seen at fit: a known value, a never-seen modality, a missing value (if some were seen)
+    Xnew = None
+    if case.get("newframe"):
+        seen = [v for v in X["f"].tolist() if not (isinstance(v, float) and math.isnan(v))]
+        newvals = [seen[0], seen[-1], "never_seen" if case["kind"] != "QNT" else max(seen) + 1.0] + ([float("nan")] if case.get("nan") else [])
+        Xnew = pd.DataFrame({"f": pd.Series(newvals, dtype=X["f"].dtype)})
+
+        def outcome_new(o, col):
+            try:
+                return ("ok", o.transform(Xnew.copy())[col].tolist())
+            except Exception as exc:  # noqa
+                return ("raise", type(exc).__name__)
+
     kept = []
     for ci in classes[1:]:
         name = f"f_{ci}"
@@ -87,6 +100,11 @@ def run_case(case):
                 viol.append({"kind": "column-missing", "what": f"{name} is a kept feature but not a column of the output"})
             elif not all(eq_val(a, b) for a, b in zip(out[name].tolist(), b_out)):
                 viol.append({"kind": "output-differs", "what": f"class {ci!r}: {name} = {out[name].tolist()[:8]} but BinaryCarver gives {b_out[:8]}"})
+            elif Xnew is not None:
+                om, ob = outcome_new(M, name), outcome_new(B, "f")
+                same = om[0] == ob[0] and (om[1] == ob[1] if om[0] == "raise" else all(eq_val(a, b) for a, b in zip(om[1], ob[1])))
+                if not same:
+                    viol.append({"kind": "new-frame-differs", "what": f"class {ci!r}: on a new frame {name} -> {om} but BinaryCarver -> {ob}"})
     extra = [f for f in M.features if f not in [f"f_{c}" for c in classes[1:]]]
     if extra:
         viol.append({"kind": "unexpected-features", "what": f"features {extra} do not correspond to a class c1..ck of {classes}"})
@@ -125,6 +143,17 @@ def enumerate_cases(tier, seed):
                     d2[0], d2[-1] = d2[-1], d2[0]
                     dev = {"cells": d2, "nan": None, "name": "swapends"}
                     cases.append({"carver": "multiclass", "kind": kind, "cells": [list(c) for c in cells], "nan": None, "dev": dev, "cfg": dict(cfg0, min_freq_mod=0.25), "seed": seed, "classes": labels})
+    # user-chosen sentinels and a new frame with a never-seen modality / missing value
+    KW = {"str_nan": "MISSING", "str_default": "OTHERS"}
+    for kind in ("CAT", "ORD", "QNT"):
+        tabs, tr = carving_space.tables("multiclass", kind, tier, kmax=3)
+        for cells in tabs[:: 2 if tier == "quick" else 1]:
+            for nan in (None, alpha[0]):
+                for kw in (KW, None):
+                    c = {"carver": "multiclass", "kind": kind, "cells": [list(x) for x in cells], "nan": list(nan) if nan else None, "dev": None, "cfg": dict(cfg0, min_freq=0.25), "seed": seed, "classes": CLASS_LABELS[1], "newframe": True}
+                    if kw:
+                        c["kw"] = kw
+                    cases.append(c)
     transitions += len(cases)
     return cases, transitions
 
